@@ -12,7 +12,8 @@ for d in sorted(os.listdir(os.path.join(V, "seeded"))):
 R5 = [d for d in rows if rows[d].get("round") == 5]
 R6 = [d for d in rows if rows[d].get("round") == 6]
 R7 = [d for d in rows if rows[d].get("round") == 7]
-R12 = [d for d in rows if d not in R3 and d not in R4 and d not in R5 and d not in R6 and d not in R7]
+R8 = [d for d in rows if rows[d].get("round") == 8]
+R12 = [d for d in rows if d not in R3 and d not in R4 and d not in R5 and d not in R6 and d not in R7 and d not in R8]
 
 
 def table(names):
@@ -37,7 +38,8 @@ out = ["# Seeded breaking changes (written independently by sub-agents)\n",
        "| 1+2 | 18 | 4 | 17 | C11-1 |", "| 3 | 14 | 5 | 14 | — |", "| 4 | 10 | 4 | 9 | C09-2 |",
        "| 5 | 36 | 9 | 27 | " + " ".join(d for d in R5 if rows[d]["detected_by"].startswith("missed")) + " |",
        "| 6 | 36 | 8 | 19 | " + " ".join(d for d in R6 if rows[d]["detected_by"].startswith("missed")) + " |",
-       "| 7 | 36 | %d | %d | " % (first_contact(R7), sum(1 for d in R7 if not rows[d]["detected_by"].startswith("missed"))) + " ".join(d for d in R7 if rows[d]["detected_by"].startswith("missed")) + " |\n",
+       "| 7 | 36 | %d | %d | " % (first_contact(R7), sum(1 for d in R7 if not rows[d]["detected_by"].startswith("missed"))) + " ".join(d for d in R7 if rows[d]["detected_by"].startswith("missed")) + " |",
+       "| 8 | 36 | %d | %d | " % (first_contact(R8), sum(1 for d in R8 if not rows[d]["detected_by"].startswith("missed"))) + " ".join(d for d in R8 if rows[d]["detected_by"].startswith("missed")) + " |\n",
        "## Rounds 1 and 2 (18 seeds, one per claimed property)\n",
        "First contact: 4 of 18 (C07-1, C10-1, C14-1, C19-1). For 13 of the 14 misses a structural or relational necessary condition exists and a",
        "rule was added (each run program-wide and read for false reports before arming); C11-1 stays missed (which slots the compaction may drop",
@@ -66,6 +68,13 @@ out += ["\n## Round 7 (36 seeds: per property one initialisation / reset / stale
         "rules (STALEBUF, INITWRITES, FINIBOUND, INITLIVE, PARKRESTORE, SPARSEZERO, ERANGE window, ERRFX through helpers); 10 seeds stay missed, most of them a",
         "dropped reset of one field whose required value only a history of calls shows.\n"]
 out += table(R7)
+out += ["\n## Round 8 (36 seeds: per property one ordering / missing-step slip and one condition slip)\n",
+        "First contact: 13 of 36 - the best first contact so far; condition slips move a boundary, drop a negation or test the wrong operand, which the",
+        "interval, relational and reference-table rules state directly (CONV, CODECPAIR, LINBUF CUTSPEC, NARROWEDGE, RESULTCLASS, IDENTOVERLAY, FRAGALL, LAZYORDER),",
+        "and three of the ordering slips ran into rules added in round 7 (FRAGADOPT, CONSTSTATE) or before (FINALISER). Ten more are reported after",
+        "additions (ADDREFFAIL, LENSPEC, CXXCOW, FINIFIRST, UNSIGNEDTEXT position, stricter ERRFX excuse, per-test RESULTCLASS, IDENTOVERLAY for C05,",
+        "FINIMATCH for C15, LINBOUNDS for C03); 13 stay missed.\n"]
+out += table(R8)
 out.append("\n## Behaviour-preserving refactorings (false-alarm test)\n")
 out.append("Eight further agents produced 40 behaviour-preserving refactorings (renames, loop rewrites, helper extraction, condition restructuring,")
 out.append("temporaries) in the files with the densest rules, each with a differential driver showing identical behaviour. `tools/benign_test.sh` runs")
